@@ -2,7 +2,7 @@
 From RecordUpdate Require Import RecordUpdate.
 From Coq Require Import List ZArith NArith Lia Bool Arith.
 From Coq.Strings Require Import Byte.
-From L3 Require Import Msgid Conn ConnProofs ConnAccount ConnLin2 ConnC04 ConnNoWrap.
+From L3 Require Import Msgid Conn ConnProofs ConnAccount ConnLin2 ConnC04 ConnNoWrap ConnFinal.
 Import ListNotations.
 
 Theorem c04_invariant_reachable : forall (f : fixes) (evs : list ev), Forall proper evs -> acct (run f evs).
@@ -30,6 +30,11 @@ Theorem c04_unbind_ends_driver : forall (s : st) (o : nat) (q : list nat) (c : c
 Proof. exact ConnC04.c04_unbind_ends_driver. Qed.
 
 
+(* whatever happens next - including the loss of the connection - an operation that has returned keeps its outcome, and a stream keeps what it has handed over, in order (any repair setting, any events) *)
+Theorem c04_delivered_survives : forall (f : fixes) (evs more : list ev) (o : nat) (c : cop), getop (run f evs) o = Some c -> exists c' : cop, getop (run f (evs ++ more)) o = Some c' /\ (forall p, o_status c = COk p -> o_status c' = COk p) /\ (forall e, o_status c = CErr e -> o_status c' = CErr e) /\ (exists extra, o_got c' = o_got c ++ extra).
+Proof. exact ConnFinal.c04_delivered_survives. Qed.
+
+
 Print Assumptions c04_invariant_reachable.
 Print Assumptions c04_no_pending_after_end.
 Print Assumptions c04_poll_completes.
@@ -38,3 +43,4 @@ Print Assumptions c04_later_ops_fail.
 Print Assumptions c04_end_causes.
 Print Assumptions c04_ended_stays_ended.
 Print Assumptions c04_unbind_ends_driver.
+Print Assumptions c04_delivered_survives.
